@@ -249,7 +249,12 @@ class C07:
                 counters["probe.heap_shift_child"] = counters.get("probe.heap_shift_child", 0) + 1
             envv = dict(os.environ, PYTHONHASHSEED=str(e["hashseed"]), GSIM_HEAP_SHIFT=str(e.get("heap_shift", 0)),
                         PYTHONDONTWRITEBYTECODE="1", PYTHONUTF8="1", GSIM_REPO=core.REPO)
-            p = subprocess.run(cmd, cwd=core.VERIF, env=envv, capture_output=True, timeout=280)
+            try:
+                p = subprocess.run(cmd, cwd=core.VERIF, env=envv, capture_output=True, timeout=280)
+            except subprocess.TimeoutExpired:
+                # a child that does not finish in time (a 1200-call soak on a machine at load 60) is a run that could
+                # not be completed - counted as aborted like any other watchdog expiry, never a harness error
+                raise core.RunTimeout()
             counters["probe.children_started"] = counters.get("probe.children_started", 0) + 1
             if p.returncode != 0 or not os.path.exists(out_path):
                 raise RuntimeError(f"C07 child {ci} failed rc={p.returncode}: {p.stderr.decode('utf-8', 'replace')[-1500:]}")
